@@ -57,6 +57,41 @@ func enclosingConds(p *Prog, info *types.Info, root ast.Node, target ast.Node) [
 				out = append(out, condFrame{"else", s.Cond, "!(" + condShape(p, info, s.Cond) + ")"})
 			}
 		case *ast.CaseClause:
+			inBody := false
+			for _, st := range s.Body {
+				if path[i+1] == ast.Node(st) {
+					inBody = true
+				}
+			}
+			// a tagless switch is an if / else-if chain: the clause's own condition holds, the earlier ones do not
+			if sw, ok := taglessSwitchOf(path, i); ok {
+				for _, cl := range sw.Body.List {
+					cc := cl.(*ast.CaseClause)
+					if cc == s {
+						break
+					}
+					for _, e := range cc.List {
+						out = append(out, condFrame{"else", e, "!(" + condShape(p, info, e) + ")"})
+					}
+				}
+				if inBody && len(s.List) == 1 {
+					out = append(out, condFrame{"if", s.List[0], condShape(p, info, s.List[0])})
+					continue
+				}
+				if !inBody {
+					// the target is one of the clause's own conditions: the earlier conditions of this clause were false
+					for _, e := range s.List {
+						if path[i+1] == ast.Node(e) {
+							break
+						}
+						out = append(out, condFrame{"else", e, "!(" + condShape(p, info, e) + ")"})
+					}
+					continue
+				}
+			}
+			if !inBody {
+				continue
+			}
 			var parts []string
 			for _, e := range s.List {
 				parts = append(parts, condShape(p, info, e))
@@ -73,6 +108,58 @@ func enclosingConds(p *Prog, info *types.Info, root ast.Node, target ast.Node) [
 		}
 	}
 	return out
+}
+
+func taglessSwitchOf(path []ast.Node, i int) (*ast.SwitchStmt, bool) {
+	if i >= 2 {
+		if sw, ok := path[i-2].(*ast.SwitchStmt); ok && sw.Tag == nil {
+			return sw, true
+		}
+	}
+	return nil, false
+}
+
+// guardT is a condition together with the statements it guards: an `if` or one clause of a tagless switch.
+type guardT struct {
+	Cond ast.Expr
+	Body []ast.Stmt
+	Node ast.Node
+}
+
+func guardsIn(root ast.Node) []guardT {
+	var out []guardT
+	ast.Inspect(root, func(n ast.Node) bool {
+		switch s := n.(type) {
+		case *ast.FuncLit:
+			return false
+		case *ast.IfStmt:
+			out = append(out, guardT{s.Cond, s.Body.List, s})
+		case *ast.SwitchStmt:
+			if s.Tag == nil {
+				for _, cl := range s.Body.List {
+					cc := cl.(*ast.CaseClause)
+					for _, e := range cc.List {
+						out = append(out, guardT{e, cc.Body, cc})
+					}
+				}
+			}
+		}
+		return true
+	})
+	return out
+}
+
+func stmtsContain(body []ast.Stmt, pred func(ast.Node) bool) bool {
+	found := false
+	for _, st := range body {
+		ast.Inspect(st, func(n ast.Node) bool {
+			if n != nil && pred(n) {
+				found = true
+			}
+			return !found
+		})
+	}
+	return found
 }
 
 // condShape renders an expression with local identifiers replaced by "_" but with field names,
@@ -183,11 +270,17 @@ func ruleT3(c *Ctx) {
 		c.undecided("T3", "analyzer", "balance checker", token.NoPos, "no function (tx *ast.Transaction) *BalanceResult found in package analyzer")
 		return
 	}
+	type scopeT struct {
+		fd     *ast.FuncDecl
+		prefix []string // guards under which the function is reached from the transaction loop
+	}
 	type entry struct {
 		fd     *ast.FuncDecl
 		checks map[string]string // callee -> guard shape inside the transaction loop
+		scopes []scopeT          // the entry point itself and the helpers it hands the transaction to
 	}
 	var entries []entry
+	info := pk.TypesInfo
 	for _, f := range pk.Syntax {
 		for _, d := range f.Decls {
 			fd, ok := d.(*ast.FuncDecl)
@@ -203,50 +296,62 @@ func ruleT3(c *Ctx) {
 			if !isRes {
 				continue
 			}
-			info := pk.TypesInfo
 			e := entry{fd: fd, checks: map[string]string{}}
 			hasBalance := false
-			ast.Inspect(fd.Body, func(n ast.Node) bool {
-				call, ok := n.(*ast.CallExpr)
-				if !ok {
-					return true
-				}
-				o := calleeOf(info, call)
-				fn, ok := o.(*types.Func)
-				if !ok || fn.Pkg() != pk.Types {
-					return true
-				}
-				// only calls that take the transaction (per-transaction checks)
-				takesTx := false
-				for _, a := range call.Args {
-					if t := info.TypeOf(a); t != nil && strings.HasSuffix(types.TypeString(t, nil), "ast.Transaction") {
-						takesTx = true
+			var collect func(cur *ast.FuncDecl, inLoop0 bool, prefix []string, depth int)
+			collect = func(cur *ast.FuncDecl, inLoop0 bool, prefix []string, depth int) {
+				e.scopes = append(e.scopes, scopeT{cur, prefix})
+				ast.Inspect(cur.Body, func(n ast.Node) bool {
+					call, ok := n.(*ast.CallExpr)
+					if !ok {
+						return true
 					}
-				}
-				if !takesTx {
-					return true
-				}
-				frames := enclosingConds(c.P, info, fd.Body, call)
-				var guards []string
-				inLoop := false
-				for _, fr := range frames {
-					switch fr.Kind {
-					case "range", "for":
-						inLoop = true
-						guards = nil // guards outside the loop apply to all checks alike
-					default:
-						guards = append(guards, fr.Shape)
+					o := calleeOf(info, call)
+					fn, ok := o.(*types.Func)
+					if !ok || fn.Pkg() != pk.Types {
+						return true
 					}
-				}
-				if !inLoop {
+					// only calls that take the transaction (per-transaction checks)
+					takesTx := false
+					for _, a := range call.Args {
+						if t := info.TypeOf(a); t != nil && strings.HasSuffix(types.TypeString(t, nil), "ast.Transaction") {
+							takesTx = true
+						}
+					}
+					if !takesTx {
+						return true
+					}
+					frames := enclosingConds(c.P, info, cur.Body, call)
+					guards := append([]string(nil), prefix...)
+					inLoop := inLoop0
+					for _, fr := range frames {
+						switch fr.Kind {
+						case "range", "for":
+							if !inLoop0 {
+								inLoop = true
+								guards = nil // guards outside the loop apply to all checks alike
+							}
+						default:
+							guards = append(guards, fr.Shape)
+						}
+					}
+					if !inLoop {
+						return true
+					}
+					if fn == balanceFn {
+						hasBalance = true
+					}
+					if _, dup := e.checks[fn.Name()]; !dup {
+						e.checks[fn.Name()] = strings.Join(guards, " && ")
+					}
+					// a helper that is handed the transaction runs checks on the entry point's behalf
+					if decl := c.P.declOf[fn]; decl != nil && decl.Body != nil && fn != balanceFn && depth < 3 && decl != cur {
+						collect(decl, true, guards, depth+1)
+					}
 					return true
-				}
-				if fn == balanceFn {
-					hasBalance = true
-				}
-				e.checks[fn.Name()] = strings.Join(guards, " && ")
-				return true
-			})
+				})
+			}
+			collect(fd, false, nil, 0)
 			if hasBalance {
 				entries = append(entries, e)
 			}
@@ -298,38 +403,47 @@ func ruleT3(c *Ctx) {
 	}
 	// emit-iff: the diagnostic builder that takes the *BalanceResult is called under exactly `!_.Balanced`
 	for _, e := range entries {
-		info := pk.TypesInfo
 		fname := c.P.declName(e.fd)
 		n := 0
-		ast.Inspect(e.fd.Body, func(nn ast.Node) bool {
-			call, ok := nn.(*ast.CallExpr)
-			if !ok {
-				return true
+		seenScope := map[*ast.FuncDecl]bool{}
+		for _, sc := range e.scopes {
+			if seenScope[sc.fd] {
+				continue
 			}
-			takesBR := false
-			for _, a := range call.Args {
-				if t := info.TypeOf(a); t != nil && strings.HasSuffix(types.TypeString(t, nil), "analyzer.BalanceResult") {
-					takesBR = true
+			seenScope[sc.fd] = true
+			isEntry := sc.fd == e.fd
+			ast.Inspect(sc.fd.Body, func(nn ast.Node) bool {
+				call, ok := nn.(*ast.CallExpr)
+				if !ok {
+					return true
 				}
-			}
-			if !takesBR {
-				return true
-			}
-			n++
-			var guards []string
-			for _, fr := range enclosingConds(c.P, info, e.fd.Body, call) {
-				if fr.Kind == "range" || fr.Kind == "for" {
-					guards = nil
-					continue
+				takesBR := false
+				for _, a := range call.Args {
+					if t := info.TypeOf(a); t != nil && strings.HasSuffix(types.TypeString(t, nil), "analyzer.BalanceResult") {
+						takesBR = true
+					}
 				}
-				guards = append(guards, fr.Shape)
-			}
-			g := strings.Join(guards, " && ")
-			c.check(g == "!_.Balanced", "T3", fname, "emit iff unbalanced", call.Pos(),
-				"balance diagnostic is built exactly when !Balanced",
-				"balance diagnostic is built under guard ["+g+"], expected exactly [!_.Balanced]")
-			return true
-		})
+				if !takesBR {
+					return true
+				}
+				n++
+				guards := append([]string(nil), sc.prefix...)
+				for _, fr := range enclosingConds(c.P, info, sc.fd.Body, call) {
+					if fr.Kind == "range" || fr.Kind == "for" {
+						if isEntry {
+							guards = nil
+						}
+						continue
+					}
+					guards = append(guards, fr.Shape)
+				}
+				g := strings.Join(guards, " && ")
+				c.check(g == "!_.Balanced", "T3", fname, "emit iff unbalanced", call.Pos(),
+					"balance diagnostic is built exactly when !Balanced",
+					"balance diagnostic is built under guard ["+g+"], expected exactly [!_.Balanced]")
+				return true
+			})
+		}
 		if n == 0 {
 			c.finding("T3", fname, "emit iff unbalanced", e.fd.Pos(), "no diagnostic is built from the balance result")
 		}
@@ -566,9 +680,39 @@ func postingAmountPaths(p *Prog) []string {
 
 // commodityPathsVisited: selector chains `<posting>.<path>.Commodity` in a function body.
 func commodityPathsVisited(p *Prog, fd *ast.FuncDecl) map[string]token.Pos {
+	return commodityPathsVisitedDepth(p, fd, 0)
+}
+
+func commodityPathsVisitedDepth(p *Prog, fd *ast.FuncDecl, depth int) map[string]token.Pos {
 	info := p.InfoFor(fd)
 	out := map[string]token.Pos{}
 	ast.Inspect(fd.Body, func(n ast.Node) bool {
+		// a module function that is handed the posting visits sites on the caller's behalf
+		if call, ok := n.(*ast.CallExpr); ok && depth < 3 {
+			if o, ok := calleeOf(info, call).(*types.Func); ok {
+				if decl := p.declOf[o]; decl != nil && decl.Body != nil && decl != fd {
+					takesPosting := false
+					for _, a := range call.Args {
+						if t := info.TypeOf(a); t != nil {
+							if pt, ok := t.(*types.Pointer); ok {
+								t = pt.Elem()
+							}
+							if strings.HasSuffix(types.TypeString(t, nil), "/ast.Posting") {
+								takesPosting = true
+							}
+						}
+					}
+					if takesPosting {
+						for k := range commodityPathsVisitedDepth(p, decl, depth+1) {
+							if _, dup := out[k]; !dup {
+								out[k] = call.Pos()
+							}
+						}
+					}
+				}
+			}
+			return true
+		}
 		se, ok := n.(*ast.SelectorExpr)
 		if !ok || se.Sel.Name != "Commodity" {
 			return true
